@@ -153,6 +153,11 @@ func (cache *TxCache) evictLeastLikelyToSelectTransactions() *evictionJournal {
 			lowestToEvictBySender[sender] = tx.Tx.GetNonce()
 		}
 
+		// The removal below has to exclude concurrent additions / removals: a sender's list that gets emptied here is dropped from
+		// "txListBySender", while "AddTx" (which holds "mutTxOperation") might have already fetched that very list,
+		// and would then insert into a list that is not reachable anymore (the transaction could never be selected, nor evicted).
+		cache.mutTxOperation.Lock()
+
 		// Remove those transactions from "txListBySender".
 		for sender, nonce := range lowestToEvictBySender {
 			// Transactions with the same nonce as an evicted one (or with higher nonces, added in the meantime) are removed, as well.
@@ -165,6 +170,8 @@ func (cache *TxCache) evictLeastLikelyToSelectTransactions() *evictionJournal {
 
 		// Remove those transactions from "txByHash".
 		_ = cache.txByHash.RemoveTxsBulk(transactionsToEvictHashes)
+
+		cache.mutTxOperation.Unlock()
 
 		journal.numEvictedByPass = append(journal.numEvictedByPass, len(transactionsToEvict))
 		journal.numEvicted += len(transactionsToEvict)
